@@ -583,6 +583,10 @@ func runE2E(run *vh.Run, sc *e2eScenario, idx int) (steps int) {
 	}
 	res := env.runSession(sc, target, true, wd)
 	res.hist = append([]*chainT{}, env.local.hist...)
+	if env.wire != nil && res.hung == "" {
+		time.Sleep(2 * time.Millisecond)
+		env.wire.serveAncOps(func(op, out string) { run.Op(op, out, true); run.Count("wire:serveanc-line") })
+	}
 	if len(res.hist) > 1 {
 		run.Count("e2e:local-chain-changed-during-session")
 	}
